@@ -51,9 +51,10 @@ type PeerConnection struct {
 	currentRemoteDescription *SessionDescription
 	pendingRemoteDescription *SessionDescription
 	signalingState           SignalingState
-	iceConnectionState       atomic.Value // ICEConnectionState
-	connectionState          atomic.Value // PeerConnectionState
-	connectionStateMu        sync.Mutex   // serializes updateConnectionState
+	iceConnectionState       atomic.Value  // ICEConnectionState
+	connectionState          atomic.Value  // PeerConnectionState
+	connectionStateMu        sync.Mutex    // serializes updateConnectionState
+	connectionStateLastEvent chan struct{} // closed when the handler of the latest state change returned
 
 	idpLoginURL *string
 
@@ -547,7 +548,19 @@ func (pc *PeerConnection) onConnectionStateChange(cs PeerConnectionState) {
 	endBracket()
 	pc.log.Infof("peer connection state changed: %s", cs)
 	if handler, ok := pc.onConnectionStateChangeHandler.Load().(func(PeerConnectionState)); ok && handler != nil {
-		go handler(cs)
+		// Handlers run on their own goroutine, but in the order of the state changes: a state
+		// must not be reported after a later one (in particular nothing after closed).
+		// The caller holds connectionStateMu.
+		previous := pc.connectionStateLastEvent
+		done := make(chan struct{})
+		pc.connectionStateLastEvent = done
+		go func() {
+			if previous != nil {
+				<-previous
+			}
+			defer close(done)
+			handler(cs)
+		}()
 	}
 }
 
